@@ -148,3 +148,14 @@ package htmldoc
 //@ func (*Reader) getElements
 //@   property C19
 //@   flags frameonly, noalias
+
+// ---- C02: the recursive walks run only on a tree whose depth has been checked ----
+// treeDepthExceeds walks x/net/html nodes (opaque here): its meaning is assumed, its use is checked
+//@ func treeDepthExceeds results (r)
+//@   property C02
+//@   flags pure, trusted
+//@ func OpenReader results (rd, err)
+//@   property C02
+//@   flags nosafety
+//@   callsite extractHead(d) requires depth_checked_before_the_recursive_walks: !treeDepthExceeds(d, maxTreeDepth)
+//@   callsite extractBody(d) requires depth_checked_before_the_recursive_walks: !treeDepthExceeds(d, maxTreeDepth)
